@@ -374,7 +374,33 @@ func genC10(t *rapid.T) any {
 		if c.Opts.Wrapped {
 			root = "root."
 		}
-		switch rapid.SampledFrom([]string{"many-inner-arrays", "many-inner-arrays", "deep-nesting", "long-expression", "many-branches", "many-rows"}).Draw(t, "scale") {
+		switch rapid.SampledFrom([]string{"many-inner-arrays", "many-inner-arrays", "deep-nesting", "long-expression", "many-branches", "many-rows", "huge-rows"}).Draw(t, "scale") {
+		case "huge-rows":
+			// thousands of rows (beyond the thresholds of size-dependent strategies), one of them holding a value the
+			// query cannot read or add up: sorting, filtering, grouping, de-duplicating and joining them fails or
+			// succeeds - in the caller's goroutine
+			n := rapid.IntRange(2100, 6500).Draw(t, "n")
+			badAt := rapid.IntRange(0, n-1).Draw(t, "badat")
+			rows, rows2 := make([]any, 0, n), []any{}
+			for i := 0; i < n; i++ {
+				var bad any = map[string]any{"n": float64(i % 11)}
+				if i == badAt {
+					bad = "text"
+				}
+				rows = append(rows, map[string]any{"k": float64(i % 19), "s": fmt.Sprintf("s%d", i%7), "v": float64(i), "bad": bad})
+				if i%97 == 0 {
+					rows2 = append(rows2, map[string]any{"c": float64(i % 19), "k": float64(i)})
+				}
+			}
+			c.Doc = map[string]any{"t": rows, "t2": rows2}
+			c.SQL = fmt.Sprintf(rapid.SampledFrom([]string{"SELECT * FROM %[1]st ORDER BY `bad.n`", "SELECT * FROM %[1]st ORDER BY k, `bad.n` DESC", "SELECT v FROM %[1]st ORDER BY v DESC LIMIT 5", "SELECT k FROM %[1]st WHERE `bad.n` > 1",
+				"SELECT v FROM %[1]st WHERE k IN (SELECT c FROM `<-t2`)", "SELECT v FROM %[1]st WHERE EXISTS (SELECT c FROM `<-t2` WHERE c = 3) AND k > 2", "SELECT v FROM %[1]st WHERE ONCE.vf_id(1) = 1 AND k < 5",
+				"SELECT s, SUM(bad) AS x FROM %[1]st GROUP BY s", "SELECT s, COUNT(*) AS n FROM %[1]st GROUP BY s, k", "SELECT DISTINCT `bad.n` AS b FROM %[1]st", "SELECT DISTINCT k, s FROM %[1]st",
+				"SELECT * FROM %[1]st x JOIN %[1]st2 y ON x.`bad.n` = y.c", "SELECT x.v FROM %[1]st x PARALLEL JOIN %[1]st2 y ON x.k = y.c AND x.`bad.n` < y.k", "SELECT v, ASYNC.vf_id(`bad.n`) AS a FROM %[1]st",
+				"SELECT v FROM %[1]st WHERE s LIKE 's1%%' AND vf_fail(3, v) IS NULL"}).Draw(t, "q"), root)
+			if strings.Contains(c.SQL, "<-") && c.Opts.Wrapped {
+				c.SQL = strings.Replace(c.SQL, "`<-t2`", "`<-root.t2`", -1)
+			}
 		case "many-inner-arrays":
 			n := rapid.IntRange(24, 64).Draw(t, "n")
 			grid := []any{}
